@@ -209,7 +209,8 @@ def fam_polyroots(R, m, ncomplex):
             reals = [r.real for i, r in enumerate(roots) if i not in cpos]
             for i, r in enumerate(reals):
                 others = [o for j, o in enumerate(reals) if j != i]
-                simple = z3.And(r.e >= 0, r.e <= 1, *[zabs(r.e - o.e) >= SEP for o in others])
+                # simple among the roots that satisfy the condition: roots outside [0,1] (and complex ones) may lie arbitrarily close
+                simple = z3.And(r.e >= 0, r.e <= 1, *[z3.Implies(z3.And(o.e >= 0, o.e <= 1), zabs(r.e - o.e) >= SEP) for o in others])
                 count = z3.Sum([z3.If(lift(o).e == r.e, 1, 0) for o in out]) if out else z3.IntVal(0)
                 desc = z3.And(*[a.e > b.e for a, b in zip(reals, reals[1:])]) if len(reals) > 1 else z3.BoolVal(True)
 
@@ -239,7 +240,7 @@ out = polyroots01(p)
 reals = sorted(z.real for z in roots if z.imag == 0)
 for r in reals:
     if not (0 <= r <= 1): continue
-    if any(abs(r - o) < %r for o in reals if o is not r): continue
+    if any(abs(r - o) < %r for o in reals if o is not r and 0 <= o <= 1): continue
     n = sum(1 for o in out if abs(o - r) < 1e-6)
     if n != 1:
         REPRODUCED('polyroots01(np.poly(%%r)) = %%r: simple root %%r occurs %%d times' %% (full, out, r, n))
@@ -253,7 +254,7 @@ finally:
     np.roots = _real_roots
 for r in reals:
     if not (0 <= r <= 1): continue
-    if any(abs(r - o) < %r for o in reals if o is not r): continue
+    if any(abs(r - o) < %r for o in reals if o is not r and 0 <= o <= 1): continue
     n = sum(1 for o in out if abs(o - r) < 1e-6)
     if n != 1:
         REPRODUCED('with np.roots returning %%r (order injection) polyroots01 = %%r: simple root %%r occurs %%d times' %% (roots, out, r, n))
